@@ -73,6 +73,24 @@ def search(ctx, n):
         for what, key, exp in firsts[:ctx.budget(3, 8)]:
             relf = corecheck.make_rel(np.random.default_rng(seed), N=6, order=2, fluid=True)
             checks.append((what + " (requested first on a fresh instance)", key, relf[key], exp))
+        # "spatial Ricci from T" with a cosmological constant: R_ij = Lambda gamma_ij + kappa (T_ij - T g_ij / 2), requested
+        # first on a fresh instance, and its agreement with the spatial block of st_Ricci_down4 (the other derivation)
+        Lam = 0.3
+        kappa = 8 * np.pi
+        rell = corecheck.make_rel(np.random.default_rng(seed), N=6, order=2, fluid=True, Lambda=Lam)
+        if abs(rell.kappa - kappa) < 1e-12:
+            gu4 = np.linalg.inv(np.moveaxis(g4, (0, 1), (-2, -1)))
+            trT = np.einsum("...ab,ab...->...", gu4, T)
+            R3 = Lam * g3 + kappa * (T[1:, 1:] - 0.5 * trT * g3)
+            checks.append(("st_Ricci_down3 = Lambda gamma_ij + kappa (T_ij - T g_ij / 2) (requested first)", "st_Ricci_down3",
+                           rell["st_Ricci_down3"], R3))
+            rel4 = corecheck.make_rel(np.random.default_rng(seed), N=6, order=2, fluid=True, Lambda=Lam)
+            # (Tdown4 first: st_Ricci_down4 then takes its 'from T' derivation, which is exact algebra; without it the
+            # code contracts the finite-difference Riemann tensor and agrees only up to truncation error, 1e-5 here)
+            rel4["Tdown4"]
+            R4 = np.asarray(rel4["st_Ricci_down4"])
+            checks.append(("st_Ricci_down4 spatial block = the same (other derivation)", "st_Ricci_down4", R4[1:, 1:], R3))
+            checks.append(("st_Ricci_down3 after st_Ricci_down4 = its spatial block", "st_Ricci_down3", rel4["st_Ricci_down3"], R4[1:, 1:]))
         for what, key, got, exp in checks:
             ctx.count("oracle_evaluations")
             scale = max(1.0, float(np.max(np.abs(exp))))
